@@ -115,7 +115,7 @@ Theorem C12_multipart_no_wrap : forall (l l' : limits) (n : N) (in_memory : bool
   | Some f => exists f', field_rem l' = Some f' /\ f' + n = f
   | None => field_rem l' = None
   end.
-Proof. exact try_consume_some. Qed.
+Proof. intros l l' n m. apply try_consume_some. Qed.
 
 (* ... and it fails exactly when one of the applicable counters is smaller than the chunk *)
 Theorem C12_multipart_overflow_iff : forall (l : limits) (n : N) (in_memory : bool),
@@ -156,7 +156,7 @@ Theorem C12_defaults_instance : forall (cs : list bytes) (b : bytes),
   (fst (run (XJson JSON_DEFAULT_LIMIT) JSON_DEFAULT_LIMIT None (chunks cs)) = Ok b
      <-> b = concat cs /\ lenN b <= 2097152) /\
   (fst (run XForm FORM_DEFAULT_LIMIT None (chunks cs)) = Ok b <-> b = concat cs /\ lenN b <= 16384).
-Proof. intros. repeat split; try apply run_exact; apply run_exact. Qed.
+Proof. intros. split; [|split]; apply run_exact. Qed.
 
 (* non-vacuity: concrete runs on both sides of the limit, a lying Content-Length, a form *)
 Example C12_example :
